@@ -1,6 +1,7 @@
 """C10 — Thread-safe allocation mode (SIBLING / WHO / ORDER / REACH). See DESIGN.md section 4, C10."""
 from .common import *
 from cpv.graph import reach
+from cpv.ceval import Evaluator, Unknown
 import re
 
 PLUGIN = "src/CppUTest/MemoryLeakWarningPlugin.cpp"
@@ -85,46 +86,55 @@ def lock_types(prog):
     return out
 
 
+DETECTOR, MUTEX_OF_DETECTOR = 555, 777
+
+
 def slot_fold(prog, f, alloc_answer=70000):
-    """Fold a function stored in an allocation slot against recording stubs of the detector. Returns the chronological
-    list of events: ("lock", type, frame) | ("leave", frame) | ("getter", name, locked) | ("detector", method, args, locked),
-    where `locked` says whether an RAII lock object constructed in a frame that has not returned yet is alive."""
+    """Fold a function stored in an allocation slot against recording stubs of the detector and of SimpleMutex, with
+    local objects modelled: constructors and (also on unwinding) destructors of the lock types are run, whichever
+    classes and helpers the locking is spread over. Returns the chronological list of events:
+    ("lock", mutex, frame) | ("unlock", mutex) | ("getter", name, locked) | ("detector", method, args, locked),
+    where `locked` says whether the global detector's mutex is held at that moment."""
     from cpv.ceval import Evaluator, Unknown
-    LT = lock_types(prog)
     GETTERS = {"getCurrentNewAllocator": 101, "getCurrentNewArrayAllocator": 102, "getCurrentMallocAllocator": 103}
-    hooks = {"MemoryLeakWarningPlugin::getGlobalDetector": lambda *a_: 555}
+    hooks = {"MemoryLeakWarningPlugin::getGlobalDetector": lambda *a_: DETECTOR,
+             "MemoryLeakDetector::getMutex": lambda o, *a_: (o + 222) if isinstance(o, int) else None,
+             "SimpleMutex::Lock": lambda *a_: 0, "SimpleMutex::Unlock": lambda *a_: 0}
     for g, v in GETTERS.items():
         hooks[g] = (lambda *a_, v=v: v)
     for m in ("allocMemory", "deallocMemory", "reallocMemory", "invalidateMemory"):
         hooks["MemoryLeakDetector::" + m] = (lambda *a_, m=m: alloc_answer if m in ("allocMemory", "reallocMemory") else 0)
-    for lt in LT | {"ScopedMutexLock"}:
-        pass
     env = {}
     for i_, q in enumerate(f.params):
         env[q["name"]] = 7000 + i_
     ev = Evaluator(prog, f, env=env, calls=hooks)
     ev.pass_object = True
-    end = "return"
-    try:
-        e_, _ = ev.run_blocks(f.entry, max_steps=800)
-        end = "throw" if e_ == "throw" else "return"
-    except Unknown as u:
-        raise
-    events, frames, live = [], ["<self>"], []
+    ev.objects = True
+    if not hasattr(prog, "_c10_inline"):
+        lt_ = lock_types(prog) | {"ScopedMutexLock"}
+        prog._c10_inline = {g.qn for g in prog.functions.values() if g.file in (PLUGIN, "src/CppUTest/SimpleMutex.cpp") or g.cls in lt_}
+    ev.inline = prog._c10_inline - set(hooks)
+    e_, _ = ev.run_blocks(f.entry, max_steps=1500)
+    end = "throw" if e_ == "throw" else "return"
+    events, frames, held = [], ["<self>"], {}
     for nm, args, node in ev.trace:
         if nm.startswith("enter "):
             frames.append(nm[6:])
         elif nm.startswith("leave "):
             fr = frames.pop() if len(frames) > 1 else None
-            live = [x for x in live if x[1] != len(frames) + 1]
             events.append(("leave", fr))
-        elif nm.startswith("construct ") and nm[len("construct "):] in LT:
-            live.append((nm[len("construct "):], len(frames)))
-            events.append(("lock", nm[len("construct "):], frames[-1]))
+        elif nm == "SimpleMutex::Lock":
+            mx = args[0] if args else None
+            held[mx] = held.get(mx, 0) + 1
+            events.append(("lock", mx, frames[-1]))
+        elif nm == "SimpleMutex::Unlock":
+            mx = args[0] if args else None
+            held[mx] = held.get(mx, 0) - 1
+            events.append(("unlock", mx))
         elif nm in GETTERS:
-            events.append(("getter", nm, bool(live)))
+            events.append(("getter", nm, held.get(MUTEX_OF_DETECTOR, 0) > 0))
         elif nm.startswith("MemoryLeakDetector::") and nm.split("::")[-1] in ("allocMemory", "deallocMemory", "reallocMemory", "invalidateMemory"):
-            events.append(("detector", nm.split("::")[-1], tuple(args[1:]) if args else (), bool(live)))
+            events.append(("detector", nm.split("::")[-1], tuple(args[1:]) if args else (), held.get(MUTEX_OF_DETECTOR, 0) > 0))
     return events, getattr(ev, "ret", None), end, env
 
 
@@ -214,8 +224,8 @@ def check(ctx, run):
     run.not_decided.append("data races inside user-supplied allocators")
 
     run.rule("R1", "WHO/SIBLING: every switch function (thread-safe, default, off, save, restore) assigns each of the function-pointer slots exactly once on every active path", floor=55)
-    run.rule("R2", "SIBLING: the function the thread-safe switch stores in a slot = the default function of that slot + one leading RAII lock declaration that precedes every other statement", floor=11)
-    run.rule("R3", "ORDER/TABLE: the RAII lock takes the global detector's mutex; Lock/Unlock pair once each; the platform slots reach pthread_mutex_*", floor=12)
+    run.rule("R2", "SIBLING: the function the thread-safe switch stores in a slot, folded with local objects modelled (constructors, destructors, unwinding), does exactly the detector work of the slot's default function, all of it while the global detector's mutex is held", floor=11)
+    run.rule("R3", "ORDER/TABLE: per slot and allocator answer the fold locks exactly getGlobalDetector()->getMutex() once and has unlocked it once when it returns or throws; ScopedMutexLock folded: ctor locks / dtor unlocks the stored mutex; SimpleMutex forwards to the platform slots, which reach pthread_mutex_*; mutex_ is a new SimpleMutex", floor=12)
     run.rule("R4", "REACH: per allocation slot, no call path from the function that holds the RAII lock for its thread-safe variant reaches longjmp (throw is allowed: unwinding releases)", floor=11)
 
     slots = [s for s in slot_vars(prog) if not s.startswith("saved_")]
@@ -245,12 +255,12 @@ def check(ctx, run):
         except Unknown as u:
             run.broke("C10.R2: the functions of slot %s cannot be folded: %s" % (s, u))
             continue
-        locks = [e for e in et if e[0] == "lock"]
+        locks = [e for e in et if e[0] == "lock" and e[1] == MUTEX_OF_DETECTOR]
         unlocked = [e for e in et if e[0] in ("getter", "detector") and not e[-1]]
         work = lambda ev_: [(e[0],) + tuple(e[1:-1]) for e in ev_ if e[0] in ("getter", "detector")]
         why = ""
         if not locks:
-            why = "no RAII lock object (ctor reaching SimpleMutex::Lock, dtor reaching Unlock) is alive in the function stored by the thread-safe switch"
+            why = "the global detector's mutex is never locked in the function stored by the thread-safe switch"
         elif unlocked:
             why = "call(s) before the lock is taken or after it was released: %s" % [e[1] for e in unlocked]
         elif len(locks) != 1:
@@ -270,32 +280,28 @@ def check(ctx, run):
         idx, ltype, decl = lock_decl_index(prog, ft)
         if ltype:
             ltypes.add(ltype)
-    WANT_MUTEX = "MemoryLeakWarningPlugin::getGlobalDetector()->getMutex()"
-    for lt in sorted(ltypes):
-        if lt == "ScopedMutexLock":
-            # the generic RAII type used directly: every locked function must hand it the global detector's mutex
-            for ft in locked_fns:
-                idx, ltype, decl = lock_decl_index(prog, ft)
-                if ltype != lt:
-                    continue
-                ce = ft.strip(decl["init"])
-                a = ft.args(ce) if ce is not None else []
-                wit = rx(ft, a[0]) if a else None
-                run.ob("R3", "%s locks the global detector's mutex" % ft.name, ft.site, wit == WANT_MUTEX, witness=wit,
-                       what="" if wit == WANT_MUTEX else "ScopedMutexLock is not constructed from getGlobalDetector()->getMutex()")
+    # which mutex is taken and that it is released exactly once on every exit, per slot: decided on the fold
+    for s_ in slots:
+        ft = prog.functions.get(stored["threadsafe"].get(s_))
+        if ft is None:
             continue
-        ctors = [f for f in prog.methods_of(lt) if f.kind == "ctor"]
-        ok = False
-        wit = None
-        for c in ctors:
-            run.analysed(c)
-            for x in c.calls():
-                if x.get("ctor") and x["ctor"]["qn"] == "ScopedMutexLock::ScopedMutexLock":
-                    a = c.args(x)
-                    wit = rx(c, a[0]) if a else None
-                    ok = wit == WANT_MUTEX
-        run.ob("R3", "lock type %s locks the global detector's mutex" % lt, (ctors[0].site if ctors else lt), ok, witness=wit,
-               what="" if ok else "ScopedMutexLock is not constructed from getGlobalDetector()->getMutex()")
+        for answer in (70000, 0):
+            try:
+                et, rt_, endt, envt = slot_fold(prog, ft, alloc_answer=answer)
+            except Unknown as u:
+                run.broke("C10.R3: the thread-safe function of slot %s cannot be folded: %s" % (s_, u))
+                continue
+            lk = [e[1] for e in et if e[0] == "lock"]
+            ul = [e[1] for e in et if e[0] == "unlock"]
+            why = ""
+            if lk != [MUTEX_OF_DETECTOR]:
+                why = "locks %s; expected exactly the mutex of MemoryLeakWarningPlugin::getGlobalDetector() once" % (lk,)
+            elif ul != [MUTEX_OF_DETECTOR]:
+                why = "leaves by %s with the mutex unlocked %d times (unlocks %s)" % (endt, len(ul), ul)
+            elif [e[0] for e in et if e[0] in ("lock", "unlock")] != ["lock", "unlock"]:
+                why = "unlock precedes lock"
+            run.ob("R3", "slot %s (detector answers %s): locks the global detector's mutex once and releases it once by the time it %ss" % (s_, "a block" if answer else "NULL", endt), ft.site, not why,
+                   witness=[list(map(str, e)) for e in et if e[0] in ("lock", "unlock")], what=why)
     gm = prog.fn("MemoryLeakDetector::getMutex")
     run.analysed(gm)
     rets = [render(gm, gm.node(n.get("value"))) for n in gm.walk() if n["k"] == "ReturnStmt"]
@@ -326,14 +332,24 @@ def check(ctx, run):
     d = prog.fn("ScopedMutexLock::~ScopedMutexLock")
     run.analysed(c)
     run.analysed(d)
-    inits = [(i.get("field"), render(c, i["expr"])) for i in c.d.get("inits", []) if i.get("written")]
-    pname = c.params[0]["name"] if c.params else None
-    inits += [(l, render(c, r)) for (l, r, n) in assignments(c)]
-    run.ob("R3", "ScopedMutexLock stores its argument", c.site, [v for k, v in inits if k == "mutex"] == [pname], witness=inits)
-    ok, w = single_call(c, "SimpleMutex::Lock", recv="mutex")
-    run.ob("R3", "ScopedMutexLock ctor calls mutex->Lock() exactly once on every path", c.site, ok, witness=w)
-    ok, w = single_call(d, "SimpleMutex::Unlock", recv="mutex")
-    run.ob("R3", "ScopedMutexLock dtor calls mutex->Unlock() exactly once on every path", d.site, ok, witness=w)
+    seen = []
+    hk = {"SimpleMutex::Lock": lambda o, *a_: (seen.append(("Lock", o)), 0)[1], "SimpleMutex::Unlock": lambda o, *a_: (seen.append(("Unlock", o)), 0)[1]}
+    try:
+        e1 = Evaluator(prog, c, env={c.params[0]["name"]: 777}, calls=hk)
+        e1.pass_object = True
+        e1.objects = True
+        e1.run_blocks(c.entry, max_steps=200)
+        fields = {fl["name"] for fl in prog.records.get("ScopedMutexLock", {}).get("fields", [])}
+        after_ctor = list(seen)
+        e2 = Evaluator(prog, d, env={k_: v for k_, v in e1.env.items() if k_ in fields}, calls=hk)
+        e2.pass_object = True
+        e2.objects = True
+        e2.run_blocks(d.entry, max_steps=200)
+    except Unknown as u:
+        raise AnalysisBroken("C10.R3: ScopedMutexLock cannot be folded: %s" % u)
+    run.ob("R3", "ScopedMutexLock ctor calls mutex->Lock() exactly once on every path", c.site, after_ctor == [("Lock", 777)], witness=[list(x) for x in after_ctor])
+    run.ob("R3", "ScopedMutexLock dtor calls mutex->Unlock() exactly once on every path", d.site, seen[len(after_ctor):] == [("Unlock", 777)], witness=[list(x) for x in seen],
+           what="" if seen[len(after_ctor):] == [("Unlock", 777)] else "the destructor does not unlock the mutex the constructor locked")
     for meth, slot in (("SimpleMutex::Lock", "PlatformSpecificMutexLock"), ("SimpleMutex::Unlock", "PlatformSpecificMutexUnlock"),
                        ("SimpleMutex::~SimpleMutex", "PlatformSpecificMutexDestroy")):
         f = prog.fn(meth)
@@ -369,9 +385,21 @@ def check(ctx, run):
     # the detector owns a real mutex
     from cpv.graph import field_writers
     ws = field_writers(prog, "MemoryLeakDetector::mutex_")
-    good = [(f.qn, render(f, n) if "k" in n else n.get("field")) for f, n in ws]
-    ok = len(ws) >= 1 and all(f.kind == "ctor" for f, n in ws) and any("new SimpleMutex" in g[1] for g in good)
-    run.ob("R3", "mutex_ is written only by the detector's constructor with a new SimpleMutex", "include/CppUTest/MemoryLeakDetector.h:MemoryLeakDetector::mutex_", ok, witness=good)
+    good = sorted({f.qn for f, n in ws})
+    dc = [f for f in prog.methods_of("MemoryLeakDetector") if f.kind == "ctor"]
+    made = None
+    for f in dc:
+        run.analysed(f)
+        e1 = Evaluator(prog, f, env={q["name"]: 7000 + i_ for i_, q in enumerate(f.params)}, calls={"SimpleMutex::SimpleMutex": lambda *a_: 0})
+        e1.objects = True
+        try:
+            e1.run_blocks(f.entry, max_steps=400)
+        except Unknown:
+            pass
+        news = {a_[0]: nm for nm, a_, nd in e1.trace if nm.startswith("new ") and a_}
+        made = news.get(e1.env.get("mutex_"))
+    ok = len(ws) >= 1 and all(f.kind == "ctor" for f, n in ws) and made is not None and "SimpleMutex" in made
+    run.ob("R3", "mutex_ is written only by the detector's constructor with a new SimpleMutex", "include/CppUTest/MemoryLeakDetector.h:MemoryLeakDetector::mutex_", ok, witness={"writers": good, "constructor leaves mutex_ =": made})
 
     # ---------------- R4 --------------------------------------------------
     def sink(f, c):
